@@ -52,6 +52,17 @@ def check_def(args):
     def viol(leg, what, **kw):
         out["viol"].append({"leg": leg, "what": what, "detail": kw})
 
+    keep_alive = None
+    if backend == "twin":
+        # two live models in one process: the definition as given is built and fully evaluated first and stays alive;
+        # what is judged is its twin declared in the opposite order (state shared between model objects would show)
+        try:
+            keep_alive, _ = build.build(d)
+            x_, t_, th_ = points.points(len(d["states"]), len(d["params"]), seed)[1]
+            build.touch(keep_alive, x_, t_, th_)
+        except Exception:
+            pass
+        d = build.twin(d)
     try:
         R = ref.Ref(d)
     except Exception as e:
@@ -63,7 +74,7 @@ def check_def(args):
             x_, t_, th_ = points.points(ns_, np_, seed)[1]
             m, order = build.build_grown(d, x_, t_, th_)
         else:
-            m, order = build.build(d, lambda_backend=(backend == "lambda"))
+            m, order = build.build(d, lambda_backend=(backend != "cython"))
     except Exception as e:
         viol("C01", "construction-raised", error="%s: %s" % (type(e).__name__, e))
         return out
